@@ -9,6 +9,9 @@ TIE_TTLCODE = [(f"TieTtlCode.{n}", "Relay.Tie.TtlCode") for n in
 TIE_CHANMAP = [(f"TieChanMap.{n}", "Relay.Tie.ChanMap") for n in
                ["R_init", "add_step", "child_step", "parent_step_partial", "DeleteChild_step", "DeleteAndCloseChild_step", "DeleteParent_step",
                 "DeleteAndCloseParent_step_partial", "stepGen_sim", "run_sim", "history_tie", "history_closed_set", "closeAll_perm", "coverage"]]
-TIE_NOTE = ("TRANSLATOR TIE: internal/deny, internal/ttlcode and internal/chanmap are translated to Lean on every run and proved, for all states, arguments and map "
+TIE_ACCESS = [(f"TieAccess.{n}", "Relay.Tie.Access") for n in
+              ["hasRequiredClaims_tie", "claimsCheck_tie", "claimsCheck_not_jwt", "claimsCheck_wrong_claims", "isRelayAdmin_tie", "hasStatsScope_tie",
+               "admin_granted_iff", "stats_granted_iff", "coverage"]]
+TIE_NOTE = ("TRANSLATOR TIE: internal/deny, internal/ttlcode, internal/chanmap, the scope / required-claims decisions of internal/access and internal/permission are translated to Lean on every run and proved, for all states, arguments and map "
             "iteration orders, to be the store models this property's model builds on (Relay/Tie/*.lean). ")
 TIE_ASSUMPTION = "translator vocabulary (Relay/Base/GoLite.lean): int64 as unbounded Int, pointer receiver as threaded value, mutex calls are not data (lock discipline: C12)"
